@@ -24,6 +24,7 @@ def _claim_comment(
     *,
     backwards: bool,
     ignore_if_already_claimed: bool,
+    indented: bool,
 ) -> Optional[BlockComment]:
     if current is not None:
         return current
@@ -43,6 +44,9 @@ def _claim_comment(
         return None
     comment = _take_ignored(succ(newline), succ, ignored)
     if not isinstance(comment, BlockComment):
+        return None
+    if bool(comment.indent) != indented:
+        # Only comments with the same indentation as the model are its leading / trailing comments.
         return None
 
     if comment.claimed:
@@ -64,13 +68,18 @@ class SurroundingCommentsMixin(base.RawTreeModel):
     _leading_comment = fields.optional_right_field[BlockComment](separators=(Newline.from_default(),))
     _trailing_comment = fields.optional_left_field[BlockComment](separators=(Newline.from_default(),))
 
+    def _is_indented(self) -> bool:
+        # Indented models (postings, meta items) carry their own indent token.
+        return getattr(self, '_indent', None) is not None
+
     def claim_leading_comment(self, *, ignore_if_already_claimed: bool = False) -> Optional[BlockComment]:
         self._leading_comment = _claim_comment(
             self._leading_comment,
             self.token_store,
             self.first_token,
             backwards=True,
-            ignore_if_already_claimed=ignore_if_already_claimed)
+            ignore_if_already_claimed=ignore_if_already_claimed,
+            indented=self._is_indented())
         return self._leading_comment
 
     def unclaim_leading_comment(self) -> Optional[BlockComment]:
@@ -86,7 +95,8 @@ class SurroundingCommentsMixin(base.RawTreeModel):
             self.token_store,
             self.last_token,
             backwards=False,
-            ignore_if_already_claimed=ignore_if_already_claimed)
+            ignore_if_already_claimed=ignore_if_already_claimed,
+            indented=self._is_indented())
         return self._trailing_comment
 
     def unclaim_trailing_comment(self) -> Optional[BlockComment]:
